@@ -364,6 +364,37 @@ func variants(thorough bool) []variant {
 		netlib.SignHandshake(&h, e.ids[1].key())
 		return frame(h), 0, ""
 	})
+	// made-up signatures of every shape a lenient decoder might let through: a well-formed pair of
+	// small integers, with and without bytes behind it; the genuine signature with bytes behind it
+	// or wrapped again; indefinite / long-form lengths
+	for name, mk := range map[string]func(sig []byte) []byte{
+		"made-up-r1-s1":               func([]byte) []byte { return []byte{0x30, 0x06, 0x02, 0x01, 0x01, 0x02, 0x01, 0x01} },
+		"made-up-r1-s1-trailing-byte": func([]byte) []byte { return []byte{0x30, 0x06, 0x02, 0x01, 0x01, 0x02, 0x01, 0x01, 0x00} },
+		"made-up-r1-s1-trailing-junk": func([]byte) []byte {
+			return append([]byte{0x30, 0x06, 0x02, 0x01, 0x01, 0x02, 0x01, 0x01}, bytes.Repeat([]byte{0xab}, 64)...)
+		},
+		"made-up-r0-s0":                   func([]byte) []byte { return []byte{0x30, 0x06, 0x02, 0x01, 0x00, 0x02, 0x01, 0x00} },
+		"made-up-r0-s0-trailing-byte":     func([]byte) []byte { return []byte{0x30, 0x06, 0x02, 0x01, 0x00, 0x02, 0x01, 0x00, 0x01} },
+		"made-up-negative":                func([]byte) []byte { return []byte{0x30, 0x06, 0x02, 0x01, 0xff, 0x02, 0x01, 0xff} },
+		"made-up-empty-sequence":          func([]byte) []byte { return []byte{0x30, 0x00} },
+		"made-up-empty-sequence-trailing": func([]byte) []byte { return []byte{0x30, 0x00, 0x00} },
+		"made-up-three-integers":          func([]byte) []byte { return []byte{0x30, 0x09, 0x02, 0x01, 0x01, 0x02, 0x01, 0x01, 0x02, 0x01, 0x01} },
+		"genuine-trailing-byte":           func(sig []byte) []byte { return append(append([]byte(nil), sig...), 0x00) },
+		"genuine-trailing-copy":           func(sig []byte) []byte { return append(append([]byte(nil), sig...), sig...) },
+		"genuine-long-form-length": func(sig []byte) []byte {
+			if len(sig) < 2 || sig[1] >= 0x80 {
+				return nil
+			}
+			return append([]byte{0x30, 0x81, sig[1]}, sig[2:]...)
+		},
+	} {
+		name, mk := name, mk
+		add("signature", "signature-"+name, func(e *env, b, ob, of []byte) ([]byte, uint16, string) {
+			h := validHandshake(e.ids[0], b)
+			h.Signature = mk(h.Signature)
+			return frame(h), 0, ""
+		})
+	}
 	add("replay", "binding-of-other-connection", func(e *env, b, ob, of []byte) ([]byte, uint16, string) {
 		return frame(validHandshake(e.ids[0], ob)), 0, ""
 	})
